@@ -80,3 +80,32 @@ def str_to_variant_table(fn):
 
 def enum_variants(adt):
     return [v["name"] for v in adt["variants"]]
+
+
+def lexer_multi_char_ops(syn):
+    """{spelling: TokenKind variant} of the lexer's multi-character operators: `just("==")[.then_ignore(..)].to(TokenKind::Eq)` written in
+    `multi_char_operators` itself, or through a private helper of the same file called as `helper("&&", TokenKind::And)` whose body is
+    `just(<1st parameter>) .. .to(<2nd parameter>)`."""
+    mc = syn.fn("lexer::multi_char_operators", crate="prqlc_parser")
+    out = {}
+
+    def chain_base(n):
+        base = n["r"]
+        while base.get("k") == "mcall":
+            base = base["r"]
+        return base
+    for n in walk(mc["body"]):
+        if n.get("k") == "mcall" and n["m"] == "to" and n["a"]:
+            base = chain_base(n)
+            if base.get("k") == "call" and last_seg(show(base["f"])) == "just" and base["a"] and isinstance(lit_val(base["a"][0]), str):
+                out[lit_val(base["a"][0])] = last_seg(show(n["a"][0]))
+        if n.get("k") == "call" and n["f"].get("k") == "path" and len(n["a"]) == 2 and isinstance(lit_val(n["a"][0]), str):
+            hs = [h for h in syn.fns if h["crate"] == mc["crate"] and h["file"] == mc["file"] and h["name"] == last_seg(n["f"]["p"]) and "body" in h and len(h.get("params", [])) == 2]
+            if len(hs) == 1:
+                p0, p1 = hs[0]["params"][0]["name"], hs[0]["params"][1]["name"]
+                for x in walk(hs[0]["body"]):
+                    if x.get("k") == "mcall" and x["m"] == "to" and x["a"] and show(x["a"][0]) == p1:
+                        b = chain_base(x)
+                        if b.get("k") == "call" and last_seg(show(b["f"])) == "just" and b["a"] and show(b["a"][0]) == p0:
+                            out[lit_val(n["a"][0])] = last_seg(show(n["a"][1]))
+    return mc, out
